@@ -138,6 +138,15 @@ func Spellings() []Input {
 	} {
 		in = append(in, Input{fmt.Sprintf("spelling: import section %d", i), "package p\n\n" + imp + body})
 	}
+	bodyFmt := "templ T(x string, xs []string, b bool) {\n\t<div>{ fmt.Sprint(x) }</div>\n}\n"
+	for i, imp := range []string{"import (\n\t\"fmt\"\n\t\"os\"\n)\n\n", "import (\n\t\"os\"\n\t\"fmt\"\n\t\"io\"\n)\n\n", "import (\n\t\"os\"\n)\n\n", "import \"os\"\n\n"} {
+		in = append(in, Input{fmt.Sprintf("spelling: import section leaving one import %d", i), "package p\n\n" + imp + bodyFmt})
+	}
+	// raw strings in multi-line attribute expressions: ending on the first, a middle and the last line of the expression
+	for _, e := range []string{"\"a\",\n\t\t`b\n\t\tc` ", "\"a\",\n\t\t`b\nc`", "`b\nc`,\n\t\t\"a\" ", "`b\n\n  c\n`,\n\t", "\"a\", `b`,\n\t\t`c\nd` + `e\nf` "} {
+		add("raw string layout in class expression "+e, "\t<div class={ "+e+"}>t</div>")
+		add("raw string layout in attribute expression "+e, "\t<div title={ fmt.Sprint("+e+") }>t</div>")
+	}
 	// conditional attributes written on one line and over several lines, alone and among other attributes
 	conds := []string{"if b { class=\"a\" }", "if b { class=\"a\" } else { class=\"b\" }", "if b { title={ x } hidden }", "if b {\n\t\tclass=\"a\"\n\t}", "if b { if x != \"\" { id=\"n\" } }", "if b { { xs... } }"}
 	for _, c := range conds {
